@@ -13,6 +13,7 @@ import (
 	"mime/multipart"
 	"net/http"
 	"net/http/httptest"
+	"net/url"
 	"os"
 	"path/filepath"
 	"sort"
@@ -443,11 +444,16 @@ func runC20BtCase(c *fw.Ctx, cs *c20BtCase) (string, string) {
 // ---- GCS requests --------------------------------------------------------------------------------------
 
 type c20GcsCase struct {
-	Store string        `json:"store"`
-	Pre   string        `json:"pre,omitempty"` // extra preparation: "gzipmeta"
-	Req   gcs.HTTPReq   `json:"req"`
-	Batch []gcs.HTTPReq `json:"batch,omitempty"`
-	Label string        `json:"label"`
+	// TokenFrom: a listing sent first; its nextPageToken is added to Req (a page token taken from one listing and presented
+	// with the parameters of another)
+	TokenFrom *gcs.HTTPReq `json:"token_from,omitempty"`
+	// TokenPages: the token is the one of the k-th page of that listing's page chain (1 = first page)
+	TokenPages int           `json:"token_pages,omitempty"`
+	Store      string        `json:"store"`
+	Pre        string        `json:"pre,omitempty"` // extra preparation: "gzipmeta"
+	Req        gcs.HTTPReq   `json:"req"`
+	Batch      []gcs.HTTPReq `json:"batch,omitempty"`
+	Label      string        `json:"label"`
 }
 
 func c20GcsSetup(d *gcs.Driver, pre string) string {
@@ -459,6 +465,13 @@ func c20GcsSetup(d *gcs.Driver, pre string) string {
 	} {
 		if resp := d.Do(r); resp.Status != 200 {
 			return fmt.Sprintf("setup request failed: %s -> %d %s", r.String(), resp.Status, resp.Panic)
+		}
+	}
+	if pre == "tree" {
+		for _, n := range []string{"a/b/x", "a/b/y", "a/c", "a-b", "b/y", "c", "d/e/f"} {
+			if resp := d.Do(gcs.ReqUploadMedia("b", n, []byte(n), gcs.ObjMeta{ContentType: "text/t"}, nil, false)); resp.Status != 200 {
+				return "setup tree failed"
+			}
 		}
 	}
 	if pre == "gzipmeta" {
@@ -564,6 +577,39 @@ func runC20GcsCase(c *fw.Ctx, cs *c20GcsCase) (string, string) {
 		req := cs.Req
 		if cs.Batch != nil {
 			req = c20Batch(cs.Batch)
+		}
+		if cs.TokenFrom != nil {
+			addTok := func(r gcs.HTTPReq, tok string) gcs.HTTPReq {
+				sep := "?"
+				if strings.Contains(r.URL, "?") {
+					sep = "&"
+				}
+				r.URL += sep + "pageToken=" + url.QueryEscape(tok)
+				return r
+			}
+			tok := ""
+			for k := 0; k < max(cs.TokenPages, 1); k++ {
+				fr := *cs.TokenFrom
+				if tok != "" {
+					fr = addTok(fr, tok)
+				}
+				first := d.Do(fr)
+				if first.Panic != "" {
+					resp = first
+					return
+				}
+				var l struct {
+					Next string `json:"nextPageToken"`
+				}
+				_ = json.Unmarshal(first.Body, &l)
+				if l.Next == "" {
+					resp = first
+					after = keepState(d)
+					return // the listing has no further page: nothing to present
+				}
+				tok = l.Next
+			}
+			req = addTok(req, tok)
 		}
 		resp = d.Do(req)
 		if resp.Panic != "" {
@@ -722,7 +768,13 @@ func c20GcsCatalogue() []c20GcsCase {
 		for _, h := range []struct{ k, v string }{{"Content-Type", ""}, {"Content-Type", "multipart/related"}, {"Content-Type", "multipart/related; boundary="}, {"Content-Type", "multipart/related; boundary=nope"},
 			{"Content-Type", "text/plain; charset"}, {"Content-Type", "application/json"}, {"Content-Encoding", "gzip"}, {"Content-Range", ""}, {"Content-Range", "bytes 0-0/*"}, {"Content-Range", "bytes 5-1/3"},
 			{"Content-Range", "bytes a-b/c"}, {"Content-Range", "bytes */x"}, {"Content-Range", "bytes 0-99/10"}, {"Content-Range", "bytes 2-4/5"}, {"Content-Range", "bytes */*"}, {"Content-Range", "bytes 0-2"},
-			{"Content-Range", "bytes -1-2/3"}, {"Content-Range", "bytes 0-2/-3"}, {"Content-Range", "items 0-2/3"}, {"X-Forwarded-Host", ","}, {"Forwarded", "host=;;"}, {"Forwarded", "host=\""}, {"Accept-Encoding", "gzip"}} {
+			{"Content-Range", "bytes -1-2/3"}, {"Content-Range", "bytes 0-2/-3"}, {"Content-Range", "items 0-2/3"}, {"X-Forwarded-Host", ","}, {"Forwarded", "host=;;"}, {"Forwarded", "host=\""}, {"Accept-Encoding", "gzip"},
+			// byte ranges and HTTP-level conditions a client library may send with any request (honoured or ignored: never fatal)
+			{"Range", "bytes=0-0"}, {"Range", "bytes=0-"}, {"Range", "bytes=-1"}, {"Range", "bytes=-11"}, {"Range", "bytes=-99999"}, {"Range", "bytes=-0"}, {"Range", "bytes=-"},
+			{"Range", "bytes=5-2"}, {"Range", "bytes=4-"}, {"Range", "bytes=100-"}, {"Range", "bytes=0-99999"}, {"Range", "bytes=a-b"}, {"Range", "bytes=0-1,3-3"}, {"Range", "items=0-1"},
+			{"Range", "bytes=9223372036854775807-"}, {"Range", "bytes=-9223372036854775808"}, {"Range", "bytes=0-18446744073709551615"}, {"Range", "bytes"}, {"Range", "="},
+			{"If-None-Match", "*"}, {"If-Match", "\"nope\""}, {"If-Modified-Since", "Mon, 02 Jan 2006 15:04:05 GMT"}, {"If-Range", "\"x\""}, {"Expect", "100-continue"},
+			{"X-HTTP-Method-Override", "DELETE"}, {"X-Upload-Content-Length", "-1"}, {"X-Upload-Content-Length", "abc"}, {"X-Upload-Content-Type", ";;"}, {"Content-Length", "0"}} {
 			r := b
 			r.Header = map[string]string{}
 			for k, v := range b.Header {
@@ -747,6 +799,35 @@ func c20GcsCatalogue() []c20GcsCase {
 				r := b
 				r.Body = []byte(alt)
 				add(fmt.Sprintf("%s:body=%.20s", n, alt), r)
+			}
+		}
+	}
+	// a page token from one listing presented with the parameters of another (every ordered pair of a menu of listings)
+	{
+		var ls []gcs.HTTPReq
+		for _, pfx := range []string{"", "a", "a/", "a/b/", "b", "c", "zz"} {
+			for _, dl := range []string{"", "/", "-", "b"} {
+				for _, mx := range []string{"1", "2"} {
+					ps := map[string][]string{"maxResults": {mx}}
+					if pfx != "" {
+						ps["prefix"] = []string{pfx}
+					}
+					if dl != "" {
+						ps["delimiter"] = []string{dl}
+					}
+					ls = append(ls, gcs.ReqList("b", ps))
+				}
+			}
+		}
+		for i := range ls {
+			for j := range ls {
+				if i == j {
+					continue
+				}
+				first := ls[i]
+				for k := 1; k <= 3; k++ {
+					out = append(out, c20GcsCase{Pre: "tree", TokenFrom: &first, TokenPages: k, Req: ls[j], Label: fmt.Sprintf("list:token-of-%d.%d-with-%d", i, k, j)})
+				}
 			}
 		}
 	}
@@ -856,7 +937,7 @@ func replayC20Input(c *fw.Ctx, raw json.RawMessage) (string, string) {
 
 // gcsLabelClass drops the numeric part of truncation labels so that one defect is one signature.
 func gcsLabelClass(l string) string {
-	for _, k := range []string{":body-trunc", ":path-trunc"} {
+	for _, k := range []string{":body-trunc", ":path-trunc", ":token-of-"} {
 		if i := strings.Index(l, k); i >= 0 {
 			return l[:i+len(k)]
 		}
